@@ -280,6 +280,8 @@ pub struct ForestProfile {
     pub types: Vec<VariantType>,
     /// which classes: known database classes, unknown identifiers
     pub known_classes: bool,
+    /// draw known classes from the whole reflection database instead of the pool
+    pub all_db_classes: bool,
     pub unknown_classes: bool,
     /// property names for known classes: canonical / alias spellings from the db
     pub alias_names: bool,
@@ -522,6 +524,7 @@ fn profile_key(p: &ValProfile) -> u64 {
 }
 
 thread_local! {
+    static ALL_CLASSES: Vec<String> = dbview::all_class_names();
     static BASE_CONFIG: proptest::test_runner::Config = proptest::test_runner::Config {
         failure_persistence: None,
         ..proptest::test_runner::Config::default()
@@ -590,7 +593,11 @@ fn resolve(raw: Vec<RawNode>, root_sel: Vec<u16>, shape: u8, profile: &ForestPro
         let class: String = if r.unknown_class || !profile.known_classes {
             pick(r.class_sel, UNKNOWN_CLASS_POOL).unwrap().to_string()
         } else {
-            pick(r.class_sel, KNOWN_CLASS_POOL).unwrap().to_string()
+            if profile.all_db_classes {
+                ALL_CLASSES.with(|c| pick(r.class_sel, c).unwrap().clone())
+            } else {
+                pick(r.class_sel, KNOWN_CLASS_POOL).unwrap().to_string()
+            }
         };
         let known_class = dbview::db().classes.contains_key(class.as_str());
         let cp = class_props_cached(&class);
